@@ -7,6 +7,7 @@ namespace Goat.Tie.C17
 open Goat
 
 theorem flag_badSourceIsIgnored : Generated.cfg.badSourceIsIgnored = true := by decide
+theorem flag_emptyNextIsNoRoute : Generated.cfg.emptyNextIsNoRoute = true := by decide
 theorem flag_enqueueNonBlocking : Generated.cfg.enqueueNonBlocking = true := by decide
 theorem flag_removeComparesIdentity : Generated.cfg.removeComparesIdentity = true := by decide
 theorem flag_errReportSelectsOnCtx : Generated.cfg.errReportSelectsOnCtx = true := by decide
